@@ -74,6 +74,9 @@ REAL = [
     Embedding("7e-12+1e-10", 7e-12 / 4, 1e-10, False),
     Embedding("1e6/3-2.5e6", 1e6 / 12, -2.5e6, False),
     Embedding("nm+5e-7", 1e-9 / 4, 5e-7, False),
+    Embedding("pm", 1e-12 / 4, 0.0, False),
+    Embedding("half-pm+3pm", 5e-13 / 4, 3e-12, False),
+    Embedding("1e6", 1e6 / 4, 0.0, False),
 ]
 
 
@@ -89,5 +92,5 @@ def seeded(seed, k=2):
 
 def for_tier(tier, seed):
     if tier == "quick":
-        return [DYADIC[0], DYADIC[1], REAL[0], REAL[1], REAL[2]] + seeded(seed, 1)
+        return [DYADIC[0], DYADIC[1], REAL[1], REAL[6]] + seeded(seed, 1)
     return DYADIC + REAL + seeded(seed, 2)
